@@ -77,14 +77,17 @@ def recvLoop (max : Nat) : Nat → Transport → Bytes → Nat → Nat → RecvO
     the harness reads it off the first `Read` of every call and passes it on the protocol line, the
     theorems hold for every value). `max` is `Stream.max` when it is positive and `0` ("no limit") when
     it is zero or negative — the code tests `s.max > 0`; the client passes `-1`. -/
-def recv (c0 max : Nat) (t : Transport) : RecvOut :=
+def recvC (c0 max : Nat) (t : Transport) : RecvOut :=
   recvLoop max (t.wire.length + t.sched.length + 2) t [] 8 c0
+
+/-- `Stream.Recv` with today's initial capacity (`make([]byte, 512)`). -/
+def recv (max : Nat) (t : Transport) : RecvOut := recvC 512 max t
 
 /-- receive `n` messages in sequence; stops at the first failure (`some r`), `none` = all `n` received. -/
 def recvAll (c0 max : Nat) : Nat → Transport → List Bytes × Option RecvRes × Transport
   | 0, t => ([], none, t)
   | n + 1, t =>
-    let o := recv c0 max t
+    let o := recvC c0 max t
     match o.res with
     | .msg bs =>
       let (ms, r, t') := recvAll c0 max n o.t
